@@ -288,6 +288,12 @@ for sz in HEAP_T:
         add('k1_heap', 'heap_expand_invalid_' + sz, 'heap_expand_invalid_h::<%s>()' % TY[sz], props=['C18', 'C10'], tier='q' if sz in ('e8', 'e3') else 't', kind='panic',
             attrs=['#[kani::should_panic]'], allow=[r'in function core::(option|result)::(unwrap_failed|expect_failed)', r'capacity overflow'], cost=10, macro='ha')
 
+for opn, op in [('shrink_to_fit', 0), ('shrink_to', 1), ('reserve_exact', 2), ('reserve', 3)]:
+    add('k1_heap', 'heap_vec_%s_e8' % opn, 'heap_vec_capacity_h::<E8>(%d, false)' % op, props=['C10', 'C18'], tier='q', cost=20, macro='ha')
+    add('k1_heap', 'heap_vec_%s_e3' % opn, 'heap_vec_capacity_h::<E3>(%d, false)' % op, props=['C10'], tier='t', cost=40, macro='ha')
+    add('k1_heap', 'heap_vec_%s_e1' % opn, 'heap_vec_capacity_h::<E1>(%d, false)' % op, props=['C10'], tier='q' if op == 0 else 't', cost=20, macro='ha')
+add('k1_heap', 'heap_vec_shrink_to_fit_typed_e8', 'heap_vec_capacity_h::<E8>(0, true)', props=['C10'], tier='q', cost=20, macro='ha')
+
 
 # ---------------------------------------------------------------------------------------------------
 # K1 into_range, expected panics of checked entry points
